@@ -137,8 +137,9 @@ pub fn source_chars(src: &Source) -> Result<SourceChars, &'static str> {
         Enc::MacRoman => {
             for (c, g) in &src.table {
                 if *c > 255 {
-                    // not a Mac OS Roman code; outside the documented input domain
-                    return Err("mac-roman-code-above-255");
+                    // not a Mac OS Roman code: the subtable maps no character through it
+                    out.notes.insert("source:mac-roman-code-above-255");
+                    continue;
                 }
                 let b = *c as u8;
                 if b == 0xDB {
@@ -396,7 +397,10 @@ fn gen_map(c: &GenCase) -> BTreeMap<u32, u16> {
         SrcKind::UniDense10 => (0x10FFFF, &[0, 1, 3, 5, 4, 5, 5, 6]),
         SrcKind::MacCharsOnly => (0xFFFF, &[0, 2, 2, 0, 2, 0, 2, 2]),
         SrcKind::Symbol => (0xFFFF, &[6, 6, 0, 6, 7, 6, 0, 7]),
-        SrcKind::MacF0 | SrcKind::MacF6 => (0xFF, &[8, 8, 8, 8, 8, 8, 8, 8]),
+        SrcKind::MacF0 => (0xFF, &[8, 8, 8, 8, 8, 8, 8, 8]),
+        // a (1,0) format 6 subtable can list codes above 255: they are no Mac OS Roman codes, so no
+        // character is mapped through them - and none may be in the subset either
+        SrcKind::MacF6 => (0x1FF, &[8, 8, 8, 8, 8, 8, 9, 8]),
         SrcKind::Big5F4 | SrcKind::Big5F2 => {
             // glyph ids folded into the font
             let mut m: BTreeMap<u32, u16> = c06::big5_map(&c.big5).into_iter().map(|(k, g)| (k, 1 + g % (n - 1))).collect();
@@ -428,6 +432,7 @@ fn gen_map(c: &GenCase) -> BTreeMap<u32, u16> {
             5 => ASTRAL_BASES[pick(ASTRAL_BASES.len(), r.rnd)] + (r.rnd >> 4) % 4,
             6 => 0xF020 + r.rnd % 0xE0,
             7 => 0xF000 + r.rnd % 0x120,
+            9 => 0x100 + r.rnd % 0x100,
             _ => r.rnd % 256,
         };
         if dense {
